@@ -571,6 +571,11 @@ class Translator:
       elif isinstance(s, ast.If):
         ttxt = ast.unparse(s.test)
         cnd = CONDS.get((qual, ttxt))
+        s_body, s_orelse = s.body, s.orelse
+        if cnd is None and isinstance(s.test, ast.UnaryOp) and isinstance(s.test.op, ast.Not):
+          # `if not X: A else: B` with a known X is `if X: B else: A`
+          cnd = CONDS.get((qual, ast.unparse(s.test.operand)))
+          s_body, s_orelse = s.orelse, s.body
         if cnd is None:
           bad('unknown condition', s.test, qual)
         fp = Footprint(self, qual); fp.expr(s.test)
@@ -585,11 +590,11 @@ class Translator:
           self.emit(True, ('Branch', fp.rd, cnd, els), k, 'if %s' % ttxt)
         if fp.wr:
           bad('a condition that writes shared state', s.test, qual)
-        self.block(s.body, qual, fkey, chain, locks, base, end_label, depth, in_try)
-        if s.orelse:
+        self.block(s_body, qual, fkey, chain, locks, base, end_label, depth, in_try)
+        if s_orelse:
           self.emit(False, ('Jump', fin), None, 'skip else')
           self.place(els)
-          self.block(s.orelse, qual, fkey, chain, locks, base, end_label, depth, in_try)
+          self.block(s_orelse, qual, fkey, chain, locks, base, end_label, depth, in_try)
           self.place(fin)
         else:
           self.place(els); self.place(fin)
